@@ -243,6 +243,15 @@ Section AddTable.
         specialize (IH s1 s' Hh1 H). lia.
   Qed.
 
+  Lemma run_adds_hdr_ok md ops : forall s s', hdr_ok (t_hdr s) = true -> run_adds md s ops = Some s' -> hdr_ok (t_hdr s') = true.
+  Proof.
+    induction ops as [|o ops IH]; intros s s' Hh H; cbn [run_adds] in H.
+    - inversion H; subst. exact Hh.
+    - destruct o as [n|l]; [now apply (IH s)|].
+      destruct (add_step entry md s (SL l)) as [[s1 evs]|] eqn:E; [|discriminate].
+      destruct (add_step_grows md s (SL l) s1 evs Hh E) as [Hh1 _]. now apply (IH s1).
+  Qed.
+
   Lemma add_step_inv md s o s' evs :
     Inv2 s -> add_step entry md s o = Some (s', evs) -> N.of_nat (length (tbl_image s')) < 2 ^ 32 ->
     Inv2 s' /\
@@ -316,3 +325,92 @@ End AddTable.
 Lemma tbl_new_inv2 k h pre : hdr_ok h = true ->
   (zsum (init_extra k pre) = zsum (mid k pre 0))%Z -> Inv2 k (tbl_new k h pre).
 Proof. intros H1 H2. split; [now apply tbl_new_inv|split; [reflexivity|intros _; constructor]]. Qed.
+
+(* ------------------------------------------------------------------------------------------------
+   What histories preserve: entry-wise predicates, the already emitted body (prefix stability), handles as offsets *)
+
+Lemma image_split s : hdr_ok (t_hdr s) = true ->
+  exists pre, tbl_image s = pre ++ t_body s /\ length pre = (36 + length (mid (t_kind s) (t_pre s) 0))%nat.
+Proof.
+  intros H. exists (hdr_bytes (t_hdr s) (t_len s) (t_hck s) ++ mid (t_kind s) (t_pre s) (t_cnt s)).
+  split; [unfold tbl_image; now rewrite app_assoc|]. rewrite app_length, (length_hdr_bytes _ _ _ H), length_mid. reflexivity.
+Qed.
+
+Section AddTable2.
+  Variable K : tkind.
+  Variable entry : tbl -> sx -> option addition.
+  Hypothesis entry_sound : forall s o e, t_kind s = K -> entry s o = Some e ->
+    a_claimed e = N.of_nat (length (a_bytes e)) /\
+    (needs_pos (t_kind s) = true -> (1 <= length (a_bytes e))%nat /\ a_claimed e < 2 ^ 16).
+
+  (* a predicate established by every addition holds of every entry of every reachable state *)
+  Lemma run_adds_forall (P : list N -> Prop) md ops : forall s s',
+    (forall s o e, entry s o = Some e -> P (a_bytes e)) ->
+    Inv2 K s -> run_adds entry md s ops = Some s' -> N.of_nat (length (tbl_image s')) < 2 ^ 32 ->
+    Forall P (t_ents s) -> Forall P (t_ents s').
+  Proof.
+    induction ops as [|o ops IH]; intros s s' HP I H Hfit HF; cbn [run_adds] in H.
+    - inversion H; subst. exact HF.
+    - destruct o as [n|l]; [now apply (IH s)|].
+      destruct (add_step entry md s (SL l)) as [[s1 evs]|] eqn:E; [|discriminate].
+      destruct I as (I & HK & Hne).
+      destruct (add_step_grows K entry entry_sound md s (SL l) s1 evs (inv_hdr s I) E) as [Hh1 _].
+      pose proof (run_adds_grows K entry entry_sound md ops s1 s' Hh1 H) as Hg.
+      destruct (add_step_inv K entry entry_sound md s (SL l) s1 evs (conj I (conj HK Hne)) E) as (I1 & (e & Ee & He & _) & _); [lia|].
+      apply (IH s1 s' HP I1 H Hfit). rewrite He. apply Forall_app. split; [exact HF|]. constructor; [|constructor].
+      exact (HP s (SL l) e Ee).
+  Qed.
+
+  (* what has been emitted stays where it is: the body only grows at its end *)
+  Lemma run_adds_body_prefix md ops : forall s s',
+    Inv2 K s -> run_adds entry md s ops = Some s' -> N.of_nat (length (tbl_image s')) < 2 ^ 32 ->
+    exists tail, t_ents s' = t_ents s ++ tail /\ t_kind s' = t_kind s /\ t_pre s' = t_pre s /\ t_hdr s' = t_hdr s.
+  Proof.
+    induction ops as [|o ops IH]; intros s s' I H Hfit; cbn [run_adds] in H.
+    - inversion H; subst. exists []. now rewrite app_nil_r.
+    - destruct o as [n|l]; [now apply (IH s)|].
+      destruct (add_step entry md s (SL l)) as [[s1 evs]|] eqn:E; [|discriminate].
+      destruct I as (I & HK & Hne).
+      destruct (add_step_grows K entry entry_sound md s (SL l) s1 evs (inv_hdr s I) E) as [Hh1 _].
+      pose proof (run_adds_grows K entry entry_sound md ops s1 s' Hh1 H) as Hg.
+      destruct (add_step_inv K entry entry_sound md s (SL l) s1 evs (conj I (conj HK Hne)) E) as (I1 & (e & Ee & He & _) & Hk1 & Hhd1 & Hp1); [lia|].
+      destruct (IH s1 s' I1 H Hfit) as (tail & Ht & Hk & Hp & Hhd).
+      exists (a_bytes e :: tail). rewrite Ht, He, <- app_assoc. repeat split; congruence.
+  Qed.
+
+  (* C05: the handle reported by an addition is the offset at which the added node starts, in the image after the addition
+     and in every later image *)
+  Lemma handle_is_offset md s o s1 evs ops s' :
+    Inv2 K s -> add_step entry md s o = Some (s1, evs) -> run_adds entry md s1 ops = Some s' ->
+    N.of_nat (length (tbl_image s')) < 2 ^ 32 ->
+    exists e tail, entry s o = Some e /\
+      evs = [EvNum (if a_returns e then N.of_nat (length (tbl_image s)) else 0)] /\
+      skipn (length (tbl_image s)) (tbl_image s') = a_bytes e ++ concat tail /\
+      skipn (length (tbl_image s)) (tbl_image s1) = a_bytes e.
+  Proof.
+    intros I E Hr Hfit.
+    pose proof I as (I0 & HK & Hne).
+    destruct (add_step_grows K entry entry_sound md s o s1 evs (inv_hdr s I0) E) as [Hh1 _].
+    pose proof (run_adds_grows K entry entry_sound md ops s1 s' Hh1 Hr) as Hg.
+    destruct (add_step_inv K entry entry_sound md s o s1 evs I E) as (I1 & (e & Ee & He & _ & Hev) & Hk1 & Hhd1 & Hp1); [lia|].
+    destruct (run_adds_body_prefix md ops s1 s' I1 Hr Hfit) as (tail & Ht & Hk & Hp & Hhd).
+    exists e, tail. split; [exact Ee|]. split; [exact Hev|].
+    destruct (image_split s (inv_hdr s I0)) as (pre & Hs & Hl).
+    destruct (image_split s1 Hh1) as (pre1 & Hs1 & Hl1).
+    assert (Hh' : hdr_ok (t_hdr s') = true) by (rewrite Hhd, Hhd1; exact (inv_hdr s I0)).
+    destruct (image_split s' Hh') as (pre' & Hs' & Hl').
+    assert (Hb1 : t_body s1 = t_body s ++ a_bytes e).
+    { unfold t_body. rewrite He, concat_app. cbn [concat]. now rewrite app_nil_r. }
+    assert (Hb' : t_body s' = t_body s ++ a_bytes e ++ concat tail).
+    { unfold t_body. rewrite Ht, He, !concat_app. cbn [concat]. now rewrite app_nil_r, <- app_assoc. }
+    split.
+    - rewrite Hs', Hb', Hs. rewrite app_assoc.
+      replace (length (pre ++ t_body s)) with (length (pre' ++ t_body s))
+        by (rewrite !app_length, Hl, Hl', Hk, Hp, Hk1, Hp1; reflexivity).
+      apply skipn_app_exact.
+    - rewrite Hs1, Hb1, Hs. rewrite app_assoc.
+      replace (length (pre ++ t_body s)) with (length (pre1 ++ t_body s))
+        by (rewrite !app_length, Hl, Hl1, Hk1, Hp1; reflexivity).
+      apply skipn_app_exact.
+  Qed.
+End AddTable2.
